@@ -49,11 +49,18 @@ func EncodeType(dt datatype.DataType, version primitive.ProtocolVersion, val int
 	return c.Encode(val, version)
 }
 
-func DecodeType(dt datatype.DataType, version primitive.ProtocolVersion, bytes []byte) (interface{}, error) {
+func DecodeType(dt datatype.DataType, version primitive.ProtocolVersion, bytes []byte) (val interface{}, err error) {
 	c, err := codecFromDataType(dt)
 	if err != nil {
 		return nil, err
 	}
+	// The value and its type come from the other end of a connection. The collection codecs panic on some malformed
+	// values (e.g. a negative element count), that must not bring down the proxy.
+	defer func() {
+		if r := recover(); r != nil {
+			val, err = nil, fmt.Errorf("unable to decode value of type %v: %v", dt, r)
+		}
+	}()
 	var dest interface{}
 	_, err = c.Decode(bytes, &dest, version)
 	return dest, err
